@@ -163,8 +163,7 @@ std::string run_ops(unsigned long nslots, const std::string& ops)
         {
             if (d < nslots && s < nslots && made[d] && made[s])
             {
-                self = d == s;
-                if (self) { A::digest_active(at(d), before); }
+                // a self-move may leave the value unspecified (std::vector does); it must only not be a lifetime error
                 at(d) = std::move(at(s));
             }
         }
@@ -201,7 +200,11 @@ std::string run_ops(unsigned long nslots, const std::string& ops)
 #ifdef C04_TRACKED
         c04::Registry::get().reset();
 #endif
+#if defined(C04_LSAN)
+        return "fault " + fault + " op=" + std::to_string(idx - 1) + " restart";  // the abandoned objects would be reported later
+#else
         return "fault " + fault + " op=" + std::to_string(idx - 1);
+#endif
     }
     std::string out = "ok tags=";
     unsigned long owning = 0;
